@@ -107,7 +107,7 @@ func realMain() (code int) {
 	fmt.Printf("loaded %d repository packages (%d packages in all, whole-program=%v) from %s in %.1fs\n",
 		len(prog.Repo), len(prog.ByPath), prog.Whole, prog.Root, time.Since(t0).Seconds())
 	for _, id := range ids {
-		rc := runOne(registry[id], *tier, prog, tables)
+		rc := runOne(registry[id], *tier, prog, tables, overlay)
 		if rc != 0 {
 			code = 1
 		}
@@ -157,7 +157,7 @@ func loadMutant(path string) (map[string][]byte, error) {
 	return ov, nil
 }
 
-func runOne(d *propDef, tier string, prog *Program, tables *Tables) (rc int) {
+func runOne(d *propDef, tier string, prog *Program, tables *Tables, overlay map[string][]byte) (rc int) {
 	start := time.Now()
 	c := NewCheck(d.ID, tier, prog)
 	defer func() {
@@ -170,7 +170,14 @@ func runOne(d *propDef, tier string, prog *Program, tables *Tables) (rc int) {
 	c.Counts["repo_packages"] = len(prog.Repo)
 	c.Counts["repo_functions"] = len(prog.RepoFuncs())
 	d.Run(c)
-	return c.Finish(tables, start, nil)
+	var extra map[string]interface{}
+	if tier == "thorough" {
+		extra = runThorough(d, c, overlay, tables)
+		c.Classify(tables)
+		extra["stale_table_rows"] = staleRows(c, tables)
+		return c.finish(tables, start, extra, true)
+	}
+	return c.Finish(tables, start, extra)
 }
 
 func replay(args []string) int {
@@ -196,7 +203,7 @@ func replay(args []string) int {
 		fmt.Println(err)
 		return 2
 	}
-	prog, err := Load(d.Mode, nil, "")
+	prog, err := Load(d.Mode, nil, r.Obligation.Variant)
 	if err != nil {
 		fmt.Println(err)
 		return 1
